@@ -16,7 +16,12 @@ THE_ERROR = ValueError("verif: deliberate processor failure")
 FAIL_MARKER = 666.0
 
 
+LOG_ON = [True]
+
+
 def _log(name: str, **params: Any) -> None:
+    if not LOG_ON[0]:
+        return
     LOG.append((name, dict(params)))
     side = os.environ.get("VERIF_LOG_FILE")
     if side:
@@ -276,3 +281,79 @@ class VNested(_FloatOp):
 
 class VColl2(FloatDataCollection):
     """A second collection type (identity checks: sweep `collection` mutation)."""
+
+
+CENSUS: dict = {"count": 0, "at": (50, 150, 450), "snapshots": {}, "warm": 25}
+
+
+def census_reset(at=(50, 150, 450)):
+    CENSUS["count"] = 0
+    CENSUS["at"] = tuple(at)
+    CENSUS["snapshots"] = {}
+
+
+def _transport_owned(transports) -> set:
+    """ids of all objects reachable from the queues of the given in-memory transports (bounded: stops at
+    classes, modules, module dictionaries and the logging package's own objects)."""
+    import gc
+    import types as _types
+
+    seen: set = set()
+    stack = [t._queues for t in transports]
+    while stack:
+        o = stack.pop()
+        if id(o) in seen:
+            continue
+        if isinstance(o, (type, _types.ModuleType, _types.CodeType)) or type(o).__module__.startswith("logging"):
+            continue
+        if isinstance(o, dict) and "__name__" in o and "__builtins__" in o:
+            continue  # a module's globals
+        seen.add(id(o))
+        stack.extend(gc.get_referents(o))
+    return seen
+
+
+def take_census() -> dict:
+    """Abstract process state: registry list lengths + census of gc-tracked objects by type.
+
+    Objects owned by in-memory transport queues are counted separately (messages queued, channels), so that
+    residue of that one kind can be told apart from any other growth."""
+    import collections
+    import gc
+
+    from semantiva.core.semantiva_component import get_component_registry
+    from semantiva.execution.transport.in_memory import InMemorySemantivaTransport
+
+    gc.collect()
+    reg = {k: len(v) for k, v in get_component_registry().items()}
+    objs_all = gc.get_objects()
+    # exact MRO test: isinstance() against an ABC would itself leave weak references in the ABC's caches
+    transports = [o for o in objs_all if InMemorySemantivaTransport in type(o).__mro__]
+    owned = _transport_owned(transports)
+    # snapshots of a transport's channel table held by a suspended subscription iterator:
+    # (channel, (deque, lock)) item tuples whose only tracked content is transport-owned
+    for o in objs_all:
+        if type(o) is tuple and id(o) not in owned:
+            tracked = [r for r in gc.get_referents(o) if gc.is_tracked(r)]
+            if tracked and all(id(r) in owned for r in tracked):
+                owned.add(id(o))
+    objs = collections.Counter(type(o).__name__ for o in objs_all if id(o) not in owned)
+    messages = sum(len(q) for t in transports for (q, _lock) in t._queues.values())
+    channels = sum(len(t._queues) for t in transports)
+    return {"registry": reg, "objects": dict(objs), "registry_total": sum(reg.values()), "objects_total": sum(objs.values()),
+            "transport_messages": messages, "transport_channels": channels, "transports": len(transports)}
+
+
+class VCensus(_FloatOp):
+    """Pass-through operation that snapshots the process census at configured run counts."""
+
+    def _process_logic(self, data):
+        CENSUS["count"] += 1
+        if CENSUS["count"] == CENSUS["warm"]:
+            take_census()  # warm the census machinery itself (imports, ABC caches) before the first real snapshot
+        if CENSUS["count"] in CENSUS["at"]:
+            import json as _json
+
+            # stored as a string: a stored dict would itself be counted by the next census
+            CENSUS["snapshots"][CENSUS["count"]] = _json.dumps(take_census())
+        return data
